@@ -7,6 +7,7 @@ from .. import core
 from ..core import q, lst, natl, boolc, pair
 from .. import pb
 
+NAMING = True
 ID = "C05"
 ORACLE = "Oracle.C05"
 PROPS = "Props/C05.v"
